@@ -182,6 +182,19 @@ class Gen:
             return f"int({self.expr(self.rng.choice(['float', 'bool', 'str']), d)})"
         return f"ord({self.expr('str', d)})"
 
+    def _int_fresh_display_mutated(self, d):
+        """A method that mutates a freshly built constant display: every evaluation must build a new object."""
+        self.nodes.add("Call")
+        r = self.rng
+        k = r.random()
+        if k < 0.4:
+            return f"[{self.small_int()}, {self.small_int()}, {self.small_int()}].pop()"
+        if k < 0.6:
+            return f"[{self.small_int()}, {self.small_int()}].pop(0)"
+        if k < 0.8:
+            return f"{{'a': {self.small_int()}, 'b': {self.small_int()}}}.pop('a')"
+        return f"{{{self.small_int()}}}.pop()"
+
     def _sub_seq(self, d, elem_kind=None):
         self.nodes.add("Subscript")
         seq = self.expr(self.rng.choice(["list", "tuple"]), d)
@@ -453,6 +466,8 @@ class Gen:
             return self.T(name)
         if k < 0.55 and ek == "int":
             return f"({self.T(name)} * {self.expr('int', d)})"
+        if k < 0.62:
+            return f"({self.T(name)}, {self._int_fresh_display_mutated(d)})"
         if k < 0.7:
             return f"({self.T(name)}, {self.expr('int', d)})"
         if k < 0.8 and self.on("lambda_in_comprehension"):
@@ -670,7 +685,35 @@ class Gen:
                 self.features.add("augassign_mutable_alias")
         return pre + f"{name} {r.choice(ops)}= {self.expr(kind, d)}"
 
+    def s_subscript_aug_element(self, d):
+        """`c[i] op= v` where c is immutable, holds mutable elements, or logs its item accesses: the element is read once,
+        the (possibly in-place) operator runs, and the result is always stored back - even when it is the same object."""
+        self.nodes.add("Subscript")
+        self.nodes.add("AugAssign")
+        r = self.rng
+        name = self.fresh("tuple")
+        self.vars.pop(name, None)  # not a candidate for other statements (its kind is mixed)
+        alias = self.fresh("list")
+        self.vars.pop(alias, None)
+        cont, idxs, valid = r.choice(
+            [
+                ("([1], 2, 's', [3, 4])", [0, 1, 2, 3, 5, -1], {0, 1, 2, 3, -1}),
+                ("[[1], 2, 's', (5,)]", [0, 1, 2, 3, 4, -4], {0, 1, 2, 3, -4}),
+                ("'abc'", [0, 1, 3], {0, 1}),
+                ("TL([1], 2, 's', (5,))", [0, 1, 2, 3, 4, -1], {0, 1, 2, 3, -1}),
+                ("{'a': [1], 'b': 2, 'c': 's'}", ["'a'", "'b'", "'c'", "'zz'"], {"'a'", "'b'", "'c'"}),
+                ("b'ab'", [0, 2], {0}),
+            ]
+        )
+        i = r.choice(idxs)
+        rhs = r.choice(["[9]", "[]", "0", "1", "''", "'x'", "(6,)", "()", self.expr(r.choice(["int", "list", "str"]), min(d, 1))])
+        op = r.choice(["+", "+", "+", "*", "-"])
+        keep = f"{alias} = {name}[{i}]\n" if i in valid else ""  # an alias shows whether the operator worked in place
+        return f"{name} = {cont}\n{keep}{name}[{i}] {op}= {rhs}"
+
     def s_subscript_store(self, d):
+        if self.rng.random() < 0.25:
+            return self.s_subscript_aug_element(d)
         self.nodes.add("Subscript")
         r = self.rng
         kind = r.choice(["list", "dict"])
@@ -769,7 +812,7 @@ class Gen:
 def _install_forms():
     G = Gen
     common = lambda k: [G._ifexp(None, k), G._boolop(None, k), G._named(None, k), G._lambda(None, k), G._dict_get(None, k)]  # noqa: E731
-    G.forms_int = [G._int_bin, G._int_bin, G._int_pow, G._int_shift, G._int_unary, G._int_len, G._int_call, G._sub_seq] + common("int")
+    G.forms_int = [G._int_bin, G._int_bin, G._int_pow, G._int_shift, G._int_unary, G._int_len, G._int_call, G._sub_seq, G._int_fresh_display_mutated] + common("int")
     G.forms_float = [G._float_bin, G._float_bin, G._float_call, G._truediv] + common("float")
     G.forms_bool = [G._cmp, G._cmp, G._in, G._is_none, G._not, G._bool_call] + common("bool")
     G.forms_none = [G._none_call] + common("none")
